@@ -193,11 +193,19 @@ func unitC18deal(e common.Env, p *common.Part) {
 // offPolynomialDKG runs a directly wired key generation in which exactly one party `victim` ends up with sk+delta
 // (delta is added to a share it receives, so its commitment and reveal are consistent). Returns errors per party.
 func offPolynomialDKG(sch scheme, n, t int, victim uint16, which int, delta int64, rng *mrand.Rand) (map[uint16]error, []string, bool, bool) {
+	errs, panics, ok, tweaked, _ := offPolynomialDKGctx(sch, n, t, victim, which, delta, rng, 0, 0)
+	return errs, panics, ok, tweaked
+}
+
+// offPolynomialDKGctx: as above; party `observer` (0 = none) runs under a context that ends at its k-th consultation (k = 0: never,
+// consultations only counted). Returns the number of consultations the observer's KeyGen made.
+func offPolynomialDKGctx(sch scheme, n, t int, victim uint16, which int, delta int64, rng *mrand.Rand, observer uint16, k int64) (map[uint16]error, []string, bool, bool, int64) {
 	var ids []uint16
 	for i := 1; i <= n; i++ {
 		ids = append(ids, uint16(i))
 	}
 	d := newDrun(sch, ids, t, rng)
+	var cc *countCtx
 	tweaked := false
 	selfOK := true
 	d.filter = func(m dmsg, seq, g int) []dmsg {
@@ -215,8 +223,80 @@ func offPolynomialDKG(sch scheme, n, t int, victim uint16, which int, delta int6
 		return []dmsg{m}
 	}
 	ctx, cancel := context.WithTimeout(context.Background(), 120*time.Second)
+	if observer != 0 {
+		cc = newCountCtx(ctx, k)
+		d.ctxFor = map[uint16]context.Context{observer: cc}
+	}
 	ok := d.run(ctx, cancel, ids, 120*time.Second)
-	return d.errs, d.panics, ok && selfOK, tweaked
+	var cons int64
+	if cc != nil {
+		cons = cc.Consultations()
+	}
+	return d.errs, d.panics, ok && selfOK, tweaked, cons
+}
+
+// unitC18ctx: the cross-check must decide whatever the moment at which a party's context ends. One honest party runs under a
+// context that ends at its k-th consultation, for every k up to the number of consultations its KeyGen makes.
+func unitC18ctx(e common.Env, p *common.Part) {
+	p.Rule = "(iii) the key generations of (ii) with t<n and one off-polynomial key, in which one other (honest) party runs under a context that ends at its k-th consultation (Err/Done call), for every k = 1..M+1 (M = consultations counted in a reference run; capped at 60 in quick); oracle: no party returns nil; distinct key = (scheme, n, t, off-polynomial party, observer, k); non-trivial when k <= M (the context ended inside the call)"
+	type job struct {
+		sch      scheme
+		n, t     int
+		victim   uint16
+		observer uint16
+	}
+	var jobs []job
+	for _, sch := range []scheme{{Name: "bls"}, {Name: "ps", MsgLen: 1}} {
+		jobs = append(jobs, job{sch, 3, 2, 3, 1}, job{sch, 4, 2, 4, 1}, job{sch, 4, 3, 2, 3})
+		if e.Thorough() {
+			jobs = append(jobs, job{sch, 4, 2, 1, 2}, job{sch, 5, 2, 5, 1}, job{sch, 5, 3, 1, 4})
+		}
+	}
+	idx := 0
+	for ji, j := range jobs {
+		_, _, ok, tweaked, M := offPolynomialDKGctx(j.sch, j.n, j.t, j.victim, -1, 3, e.Rng("c18ctx-ref", ji), j.observer, 0)
+		if !ok || !tweaked {
+			p.Inconcl(fmt.Sprintf("%s n=%d t=%d: reference run unusable", j.sch.Name, j.n, j.t))
+			continue
+		}
+		p.Note(fmt.Sprintf("consultations %s n=%d t=%d", j.sch.Name, j.n, j.t), M)
+		maxK := M + 1
+		if c := int64(e.Pick(60, 400)); maxK > c {
+			maxK = c
+		}
+		for k := int64(1); k <= maxK; k++ {
+			idx++
+			if !e.Mine(idx) || p.ViolationCount() >= 3 {
+				continue
+			}
+			key := fmt.Sprintf("%s n=%d t=%d off-polynomial party=%d observer=%d context ends at consultation %d", j.sch.Name, j.n, j.t, j.victim, j.observer, k)
+			p.Begin(key)
+			errs, panics, ok, tweaked, cons := offPolynomialDKGctx(j.sch, j.n, j.t, j.victim, -1, 3, e.Rng("c18ctx", ji, k), j.observer, k)
+			p.Case(key, cons >= k)
+			p.Count("ctx_runs", 1)
+			if cons >= k {
+				p.Count("contexts_ended_inside_the_call", 1)
+			}
+			wit := map[string]interface{}{"scheme": j.sch.Name, "n": j.n, "t": j.t, "party": j.victim, "observer": j.observer, "k": k}
+			if len(panics) > 0 {
+				p.Violate("dkg-panic/"+j.sch.Name, key+": "+panics[0], wit)
+				continue
+			}
+			if !ok {
+				p.Violate("hang/"+j.sch.Name, key+": a KeyGen had not returned after every context had ended", wit)
+				continue
+			}
+			if !tweaked {
+				continue
+			}
+			for id, err := range errs {
+				if err == nil {
+					p.Violate("off-polynomial-key-accepted/"+j.sch.Name+"/context-ends-inside-the-cross-check", fmt.Sprintf("%s: party %d returned key material although the key of party %d is off the common polynomial", key, id, j.victim), wit)
+					break
+				}
+			}
+		}
+	}
 }
 
 func unitC18dkg(e common.Env, p *common.Part) {
